@@ -223,6 +223,18 @@ func findFunc(prog *ssa.Program, sp *ssa.Package, qual string) *ssa.Function {
 	if sp == nil {
 		return nil
 	}
+	if k := strings.Index(qual, "$"); k >= 0 {
+		parent := findFunc(prog, sp, qual[:k])
+		if parent == nil {
+			return nil
+		}
+		for _, af := range parent.AnonFuncs {
+			if af.Name() == parent.Name()+qual[k:] {
+				return af
+			}
+		}
+		return nil
+	}
 	if !strings.HasPrefix(qual, "(") {
 		return sp.Func(qual)
 	}
